@@ -427,6 +427,10 @@ class TopoModel(Model):
                 ports1 = [i for nn, i in self.ports() if nn == 'n1' and i.type in (InterfaceType.DedicatedPort, InterfaceType.SharedPort)]
                 for i in ports1[:1]:
                     marks.append((('port', 'n1', i.name),))
+            # the built-in service of a NIC (its ports may carry connected sub-interfaces)
+            owned_ns = sorted(raw.name(x) for x in raw.by_class(NS) if raw.owner(x) and raw.cls(sorted(raw.owner(x))[0]) == COMP)
+            for sn in owned_ns[:1]:
+                marks.append((('owned_service', sn),))
             for sname in tops[:1]:
                 marks.append((('service', sname),))
                 if 'n2' in names:
@@ -1031,6 +1035,8 @@ def c08_targets(pre: Raw, ev):
                 x = _find(pre, COMP, m[2], pre.nb(n, 'has', COMP)) if n else None
             elif m[0] == 'port':
                 x = _port_id(pre, (m[1], m[2]))
+            elif m[0] == 'owned_service':
+                x = _find(pre, NS, m[1], [y for y in pre.by_class(NS) if pre.owner(y)])
             else:
                 x = _find(pre, NS, m[1], [y for y in pre.by_class(NS) if not pre.owner(y)])
             if x is None:
